@@ -201,6 +201,22 @@ theorem core_mysql (e : SaExpr) (hC : Core e = true) (hW : WG e = true) :
     parse mysql (render .mysql true e).print = some (render .mysql true e).norm :=
   core_render_read_back .mysql mysql coreCompat_mysql prefixNoTern_mysql e hC hW
 
+/-- the constructors establish the hypothesis `WG` (and stay in the fragment):
+    `BinaryExpression.__init__`, `UnaryExpression.__init__`, `_construct_for_list` -/
+theorem constructors_establish_WG :
+    (∀ (l r : SaExpr) (op : Op) (ty : Ty) (n : Option Op), coreBin op = true →
+      Core l = true → WG l = true → Core r = true → WG r = true →
+      Core (mkBinary l r op ty n none) = true ∧ WG (mkBinary l r op ty n none) = true) ∧
+    (∀ (x : SaExpr) (op : Op) (ty : Ty), coreUn op = true → Core x = true → WG x = true →
+      Core (.unary op (selfGroup (some op) x) ty) = true ∧
+        WG (.unary op (selfGroup (some op) x) ty) = true) ∧
+    (∀ (op : Op) (ty : Ty) (cs : List SaExpr), coreList op = true → boolCtx op = false →
+      2 ≤ cs.length → CoreList cs = true → (∀ c ∈ cs, WG c = true) →
+      Core (constructForList op ty cs) = true ∧ WG (constructForList op ty cs) = true) :=
+  ⟨fun l r op ty n h a b c d => mkBinary_WG l r op ty n h a b c d,
+   fun x op ty h a b => unary_WG x op ty h a b,
+   fun op ty cs h hb hl a b => constructForList_WG op ty cs h hb hl a b⟩
+
 /-- non-vacuity: `NOT (a = 1 AND b < c + d * 2)` built by the model's constructors is in the
     fragment and well grouped -/
 example :
